@@ -337,10 +337,27 @@ class FactMap:
         return states
 
     def _calls_in(self, node):
+        """calls that are certainly evaluated when ``node`` is: not those in the arms of a conditional expression, after the
+        first operand of and / or, or inside a lambda / comprehension element (evaluated zero or more times)."""
         out = []
-        for n in ast.walk(node):
+
+        def walk(n):
             if isinstance(n, ast.Call):
                 out.append(n)
+            if isinstance(n, ast.IfExp):
+                walk(n.test)
+                return
+            if isinstance(n, ast.BoolOp):
+                walk(n.values[0])
+                return
+            if isinstance(n, ast.Lambda):
+                return
+            if isinstance(n, (ast.ListComp, ast.SetComp, ast.GeneratorExp, ast.DictComp)):
+                walk(n.generators[0].iter)
+                return
+            for c in ast.iter_child_nodes(n):
+                walk(c)
+        walk(node)
         return out
 
     def _add_calls(self, facts, *nodes):
